@@ -114,6 +114,7 @@ func (i *icache) gcCache(ctx context.Context, interval time.Duration) {
 				delete(i.items, k)
 			}
 		}
+		verifhook.At("iamcache.gc.scanned")
 		i.Unlock()
 
 		// sleep for the clean interval or context cancelation,
